@@ -164,7 +164,7 @@ func stubConc(c *common, rng *hxlib.Rng, out *hxlib.Out) int {
 }
 
 type c12Op struct {
-	K int `json:"k"` // 0 Lookup(b,t) 1 Apply(h,k) 2 Return(h,r) 3 When(h,v,r) 4 Cancel(h) 5 Reset(b) 6 Pkg(b,p) 7 VarLookup(b)
+	K int `json:"k"` // 0 Lookup(b,t) 1 Apply(h,k) 2 Return(h,r) 3 When(h,v,r) 4 Cancel(h) 5 Reset(b) 6 Pkg(b,p) 7 VarLookup(b) 8 refused Apply(h)
 	A int `json:"a"`
 	B int `json:"b"`
 	C int `json:"c"`
@@ -316,7 +316,15 @@ func stubC12(c *common, rng *hxlib.Rng, out *hxlib.Out) int {
 					live = append(live, hi)
 				}
 			}
-			switch k := rng.Intn(20); {
+			switch k := rng.Intn(21); {
+			case k == 20 && len(live) > 0:
+				// an Apply goom must refuse (callback of the wrong shape) through a live handle of a target whose Apply checks the
+				// shape: exported functions / methods and the interface methods (name-addressed mockers carry no type)
+				op = c12Op{K: 8, A: live[rng.Intn(len(live))]}
+				if t := htgt[op.A]; !(t <= 3 || t == 8 || t == 9) {
+					op = c12Op{K: 2, A: op.A, B: nextR}
+					nextR++
+				}
 			case len(live) == 0 || k < 4:
 				t := rng.Intn(len(tgts))
 				op = c12Op{K: 0, A: owner[t], B: t}
@@ -368,6 +376,12 @@ func stubC12(c *common, rng *hxlib.Rng, out *hxlib.Out) int {
 						if sib := 17 - op.B; latest[sib] >= 0 && handles[latest[sib]].Canceled() {
 							latest[sib] = -1
 						}
+					}
+				case 8:
+					if im, ok := handles[op.A].(*c12IM); ok {
+						im.im.Apply(func(ctx *mocker.IContext, a int, extra int) int { return 0 })
+					} else {
+						handles[op.A].Apply(func() {})
 					}
 				case 1:
 					handles[op.A].Apply(tgts[htgt[op.A]].cb(op.B))
